@@ -66,6 +66,7 @@ pub struct EncRec {
     pub enc: XEnc,
     pub secret: Secret<32>,
     pub ver: u64,
+    pub probe: bool,
 }
 
 pub struct World {
@@ -393,7 +394,7 @@ impl World {
                                     ev["encv"] = self.ren.rename(&v);
                                     ev["enc_len"] = json!(enc.serialize().map(|b| b.len()).unwrap_or(0));
                                     let ver = self.bump();
-                                    self.encs.insert(e, EncRec { enc, secret, ver });
+                                    self.encs.insert(e, EncRec { enc, secret, ver, probe: op["probe"].as_bool().unwrap_or(false) });
                                 }
                                 Err(e) => set_res(&mut ev, &Err(e)),
                             }
@@ -425,7 +426,7 @@ impl World {
                             ev["encv"] = self.ren.rename(&v);
                             ev["same_secret"] = json!(secret == self.encs[&from].secret);
                             let ver = self.bump();
-                            self.encs.insert(e, EncRec { enc, secret, ver });
+                            self.encs.insert(e, EncRec { enc, secret, ver, probe: false });
                         }
                         Err(e) => set_res(&mut ev, &Err(e)),
                     }
@@ -615,7 +616,7 @@ impl World {
                         r
                     }
                 };
-                rows.push(json!({"u": u, "e": e, "r": r}));
+                rows.push(json!({"u": u, "e": e, "r": r, "p": rec.probe}));
             }
         }
         Value::Array(rows)
